@@ -73,10 +73,14 @@ Inductive out_choice :=
 Definition handle_output_path (ex isdir : path -> bool) (cwd root : path) (name : str)
            (raw : option user_path) : out_choice :=
   match raw with
-  | None => OutOk (UAbs (output_path root ++ [name]))
+  | None =>
+    (* the generated name has a resolution of one second: an archive of that name made a moment ago is not overwritten (D43) *)
+    if ex (locate cwd (UAbs (output_path root ++ [name]))) then OutputFileExists
+    else OutOk (UAbs (output_path root ++ [name]))
   | Some u =>
     if ex (locate cwd u) then
-      if isdir (locate cwd u) then OutOk (u_child u name) else OutputFileExists
+      if isdir (locate cwd u) then (if ex (locate cwd (u_child u name)) then OutputFileExists else OutOk (u_child u name))
+      else OutputFileExists
     else if ex (locate cwd (u_parent u)) && isdir (locate cwd (u_parent u)) then OutOk u
     else OutputPathDoesNotExist
   end.
